@@ -65,4 +65,46 @@ theorem tables_total : ∀ t ∈ DispatchTables.tables, ∀ a ∈ List.range 5, 
 
 theorem archMask_covers : 4 ≤ DispatchTables.archMask := by decide
 
+theorem selectArch_le (f : CpuFeature) (cap : Option Nat) : selectArch f cap ≤ selectArchImpl f := by
+  cases cap with
+  | none => exact Nat.le_refl _
+  | some c => rw [selectArch_eq_min]; exact Nat.min_le_right _ _
+
+/-- the CPU has every feature set up to level `l` (1 = SSE, 2 = SSE2, 3 = SSE4.1, 4 = AVX2). -/
+def hasLevel (f : CpuFeature) (l : Nat) : Prop :=
+  (1 ≤ l → f.sse = true) ∧ (2 ≤ l → f.sse2 = true) ∧ (3 ≤ l → f.sse41 = true) ∧ (4 ≤ l → f.avx2 = true)
+
+theorem hasLevel_of_le (f : CpuFeature) (l : Nat) (h : l ≤ selectArchImpl f) : hasLevel f l := by
+  obtain ⟨h1, h2, h3, h4⟩ := selectArchImpl_spec f
+  refine ⟨fun hl => h1.mp (by omega), fun hl => (h2.mp (by omega)).2, fun hl => (h3.mp (by omega)).2.2,
+    fun hl => (h4.mp (by omega)).2.2.2⟩
+
+/-- explicit shape of every regenerated table, entry by entry. -/
+theorem tables_entries : ∀ t ∈ DispatchTables.tables, ∃ k ∈ floatSpecs, k.table = t.1 ∧
+    t.2.1 = DispatchTables.archMask + 1 ∧ t.2.2.length = DispatchTables.archMask + 1 ∧
+    (∀ a ∈ List.range 5, t.2.2[a]? = some (symbolAt k a)) ∧
+    (∀ a ∈ List.range (DispatchTables.archMask + 1), 4 < a → t.2.2[a]? = some "null") := by
+  decide +kernel
+
+/-- what `symbolAt` means: the portable symbol strictly below the kernel's lowest SIMD level, a SIMD symbol whose
+    level is the largest one not above the index from there on. -/
+theorem symbolAt_meaning : ∀ k ∈ floatSpecs, ∀ a ∈ List.range 5,
+    ((∀ ls ∈ k.levels, a < ls.1) → symbolAt k a = k.base) ∧
+    (∀ ls ∈ k.levels, ls.1 ≤ a → ∃ ms ∈ k.levels, symbolAt k a = ms.2 ∧ ls.1 ≤ ms.1 ∧ ms.1 ≤ a) := by
+  decide +kernel
+
+/-- the entry a table holds at any arch value `opus_select_arch` can return needs no feature the CPU lacks. -/
+theorem dispatch_level_le (f : CpuFeature) (cap : Option Nat) :
+    ∀ t ∈ DispatchTables.tables, ∀ k ∈ floatSpecs, k.table = t.1 →
+      levelOf k (t.2.2.getD (selectArch f cap) "null") ≤ selectArchImpl f ∧
+      t.2.2.getD (selectArch f cap) "null" ≠ "null" := by
+  have hle := selectArch_le f cap
+  have h4 := selectArchImpl_le f
+  have key : ∀ a ∈ List.range 5, ∀ t ∈ DispatchTables.tables, ∀ k ∈ floatSpecs, k.table = t.1 →
+      levelOf k (t.2.2.getD a "null") ≤ a ∧ t.2.2.getD a "null" ≠ "null" := by decide +kernel
+  intro t ht k hk hkt
+  have ha : selectArch f cap ∈ List.range 5 := List.mem_range.mpr (by omega)
+  obtain ⟨h1, h2⟩ := key _ ha t ht k hk hkt
+  exact ⟨by omega, h2⟩
+
 end Opus.Kernels
